@@ -52,7 +52,8 @@ def apply_variant(v: Variant, root: str) -> dict[str, str] | None:
     return out
 
 
-def evaluate(v: Variant, root: str) -> dict:
+def evaluate(v: Variant, root: str, baseline: frozenset = frozenset()) -> dict:
+    """baseline: (rule, construct, statement) of the violations the tree under analysis has WITHOUT the variant - they are the tree's, not the variant's"""
     from geolint import checks
 
     srcs = apply_variant(v, root)
@@ -93,6 +94,7 @@ def evaluate(v: Variant, root: str) -> dict:
     except Exception as e:  # noqa: BLE001
         return {"variant": v.name, "expected": v.expect, "got": f"crashed: {type(e).__name__}: {e}", "ok": False}
     viols = scratch.new_violations()  # a finding that is recorded as open on the tree as it stands is not the variant's doing
+    viols = [o for o in viols if (o.rule, o.construct, o.stmt) not in baseline]  # ... nor is a violation the tree has without the variant
     if v.expect == "missed":
         # a breaking variant that is known to be outside the reach of the rule (documented blind spot): recorded, never required
         got = "; ".join(f"{o.rule}@{o.construct}" for o in viols[:3]) or "no violation (UNDECIDED or invisible, as documented)"
@@ -124,10 +126,10 @@ def evaluate(v: Variant, root: str) -> dict:
 
 
 def _eval_by_index(args) -> dict:
-    i, root = args
+    i, root, baseline = args
     from geolint import variants  # noqa: F401  (fills VARIANTS)
 
-    return evaluate(VARIANTS[i], root)
+    return evaluate(VARIANTS[i], root, baseline)
 
 
 def run(run: Run, prog: Program, seed: int, quick_only: bool = False) -> None:
@@ -137,12 +139,13 @@ def run(run: Run, prog: Program, seed: int, quick_only: bool = False) -> None:
     idx = [i for i, v in enumerate(VARIANTS) if v.prop == run.prop and (v.quick or not quick_only)]
     if not idx:
         return
+    baseline = frozenset((o.rule, o.construct, o.stmt) for o in run.new_violations())
     jobs = min(16, len(idx), os.cpu_count() or 1)
     if jobs > 1 and len(idx) > 2:
         with ProcessPoolExecutor(max_workers=jobs) as ex:
-            results = list(ex.map(_eval_by_index, [(i, root) for i in idx]))
+            results = list(ex.map(_eval_by_index, [(i, root, baseline) for i in idx]))
     else:
-        results = [evaluate(VARIANTS[i], root) for i in idx]
+        results = [evaluate(VARIANTS[i], root, baseline) for i in idx]
     for r in results:
         run.selftest.append(r)
         if not r["ok"]:
